@@ -65,6 +65,11 @@ def cases(tier, seed):
     for n in range(0, len(tt), 60):
         chunk = tt[n : n + 60]
         specs.append({"id": "tt:%s,%s" % (chunk[0][0][1], chunk[0][1][1]), "pairs": [list(p) for p in chunk]})
+    # curved boundaries with integer control points against integer polygons (crossing parameters
+    # that are not nice fractions)
+    ic = [["L", "Q." + q] for q in ("iarch", "ibox", "ikite", "ilens")]
+    for a in ic:
+        specs.append({"id": "intcurved:%s" % a[1], "A": a, "Bs": ic, "timeout": 1500})
     # the same curved drawings in millimetres instead of metres (1/1024) and magnified (x 4096)
     for fac in ("1/1024", "4096"):
         sc = [["SCL", "Q." + q, fac] for q in ("c8", "lens", "blob", "ftri", "c16b", "mixg")]
